@@ -6,8 +6,12 @@ import (
 	"errors"
 	"fmt"
 	"io"
+	"io/ioutil"
 	"net"
+	"os"
+	"path/filepath"
 	"strings"
+	"syscall"
 	"time"
 
 	"github.com/DOSNetwork/core/p2p"
@@ -355,4 +359,105 @@ func opListen(evs string) (string, string) {
 		oracle = "not-serving-listen: the valid member event after the case produced no P2PEvent"
 	}
 	return strings.Join(outs, ";"), oracle
+}
+
+// ---------------------------------------------------------------- serf: a live gossip session
+
+var serfSeq int
+
+// opSerf: a real serf cluster on loopback: this node (discover.NewSerfNet, as CreateP2PNetwork builds it)
+// and one joining member per name length; observes the translator (Listen) and Lookup / MembersID.
+func opSerf(lens string) (string, string) {
+	lock, err := os.OpenFile(filepath.Join(os.TempDir(), "verif-c12-serf.lock"), os.O_CREATE|os.O_RDWR, 0o666)
+	if err == nil {
+		syscall.Flock(int(lock.Fd()), syscall.LOCK_EX) // the node binds the fixed memberlist port 7946
+		defer lock.Close()
+	}
+	var m discover.Membership
+	for i := 0; i < 50; i++ {
+		if m, err = discover.NewSerfNet(net.ParseIP("127.0.0.1"), string(localID), "9501"); err == nil {
+			break
+		}
+		time.Sleep(100 * time.Millisecond)
+	}
+	if err != nil {
+		panic("harness: NewSerfNet: " + err.Error())
+	}
+	defer discover.VerifPShutdown(m)
+	ctx, cancel := context.WithCancel(context.Background())
+	defer cancel()
+	out := make(chan discover.P2PEvent, 256)
+	go m.Listen(ctx, out) // a panic here kills this process, as it kills the node
+	var peers []*serf.Serf
+	names := map[string]bool{}
+	defer func() {
+		for _, p := range peers {
+			p.Shutdown()
+		}
+	}()
+	for i, l := range splitList(lens, ",") {
+		serfSeq++
+		n := atoi(l)
+		name := fmt.Sprintf("%d-", serfSeq)
+		if n <= len(name) {
+			name = string(rune('A'+serfSeq%26)) + string(rune('a'+(serfSeq/26)%26))
+			name = (name + name)[:n]
+		}
+		for len(name) < n {
+			name += "x"
+		}
+		conf := serf.DefaultConfig()
+		conf.Init()
+		conf.LogOutput = ioutil.Discard
+		conf.MemberlistConfig.LogOutput = ioutil.Discard
+		conf.MemberlistConfig.BindAddr = "127.0.0.1"
+		conf.MemberlistConfig.BindPort = 17950 + i
+		conf.MemberlistConfig.AdvertiseAddr = "127.0.0.1"
+		conf.MemberlistConfig.AdvertisePort = 17950 + i
+		conf.NodeName = name
+		p, err := serf.Create(conf)
+		if err != nil {
+			panic("harness: serf.Create: " + err.Error())
+		}
+		peers = append(peers, p)
+		names[name] = true
+		if _, err := p.Join([]string{"127.0.0.1:7946"}, true); err != nil {
+			panic("harness: join: " + err.Error())
+		}
+	}
+	// the joins are known to this node when Join returns (push/pull); give the event channel a moment
+	joins := 0
+	deadline := time.After(250 * time.Millisecond)
+collect:
+	for {
+		select {
+		case e := <-out:
+			if e.EventType == "member-join" {
+				for nm := range names {
+					if len(nm) >= 20 && nm[:20] == e.NodeID {
+						joins++
+					}
+				}
+			}
+		case <-deadline:
+			break collect
+		}
+	}
+	ids := 0
+	for _, id := range m.MembersID() {
+		if names[string(id)] {
+			ids++
+		}
+	}
+	found := 0
+	for nm := range names {
+		if len(nm) > 20 && m.Lookup([]byte(nm[:20])) != "" {
+			found++
+		}
+	}
+	oracle := ""
+	if found != ids {
+		oracle = fmt.Sprintf("not-serving-serf: MembersID lists %d of the joined members, Lookup resolves %d", ids, found)
+	}
+	return fmt.Sprintf("ok %d %d", joins, ids), oracle
 }
